@@ -31,8 +31,11 @@ static void my_exit(j_common_ptr c)
   for (q = last_msg; *q; q++) if (*q == ' ' || *q == '\n') *q = '_';
   longjmp(jb, 1);
 }
+static char xbuf[4096]; static size_t xlen; static int x_on;    /* JWRN_EXTRANEOUS_DATA (discarded_bytes, marker) in order */
 static void my_emit(j_common_ptr c, int lvl)
 {
+  if (x_on && c->err->msg_code == JWRN_EXTRANEOUS_DATA && xlen + 40 < sizeof(xbuf))
+    xlen += (size_t)sprintf(xbuf + xlen, " %d:%d", c->err->msg_parm.i[0], c->err->msg_parm.i[1]);
   if (lvl < 0) { c->err->num_warnings++; n_warn++; if (c->err->msg_code == JWRN_BOGUS_ICC) n_bogus_icc++; }
 }
 static void my_output(j_common_ptr c) { (void)c; }
@@ -315,6 +318,19 @@ static void do_rd(char **f, int nf)
   buf = unhex(f[2], &n);
   rd_core(stdout, f[1], buf, n, NULL, 0, NULL);
   putchar('\n');
+  free(buf);
+}
+
+/* rdx cfg hex : header line, then what next_marker reported: "x <discarded_bytes>:<unread_marker> ..." */
+static void do_rdx(char **f, int nf)
+{
+  unsigned char *buf; size_t n;
+  if (nf < 3) { puts("err usage"); return; }
+  buf = unhex(f[2], &n);
+  xlen = 0; xbuf[0] = 0; x_on = 1;
+  rd_core(stdout, f[1], buf, n, NULL, 0, NULL);
+  x_on = 0;
+  printf(" || x%s\n", xbuf);
   free(buf);
 }
 
@@ -730,6 +746,7 @@ int main(void)
     else if (!strcmp(f[0], "tjc")) do_tjc(f, nf);
     else if (!strcmp(f[0], "rd")) do_rd(f, nf);
     else if (!strcmp(f[0], "rds")) do_rds(f, nf);
+    else if (!strcmp(f[0], "rdx")) do_rdx(f, nf);
     else if (!strcmp(f[0], "tjrd")) do_tjrd(f, nf);
     else if (!strcmp(f[0], "xf")) do_xf(f, nf);
     else if (!strcmp(f[0], "xfh")) do_xfh(f, nf);
